@@ -16,6 +16,9 @@ use verif_harness::util::{bytes_of, for_each_json_line};
 struct MMatcher {
     term: Option<LineTerminator>,
     candidate: bool,
+    /// bytes declared as never occurring in a match (the way a regex matcher without a line terminator tells the
+    /// searcher that multi-line mode is not needed)
+    non_matching: Option<grep_matcher::ByteSet>,
 }
 
 impl Matcher for MMatcher {
@@ -30,6 +33,9 @@ impl Matcher for MMatcher {
     }
     fn line_terminator(&self) -> Option<LineTerminator> {
         self.term
+    }
+    fn non_matching_bytes(&self) -> Option<&grep_matcher::ByteSet> {
+        self.non_matching.as_ref()
     }
     fn find_candidate_line(&self, haystack: &[u8]) -> Result<Option<LineMatchKind>, NoError> {
         if self.candidate {
@@ -200,9 +206,18 @@ fn run_one(v: &Value, cache: &mut std::collections::HashMap<String, Searcher>) -
     let cap0 = scn["cap0"].as_u64().map(|c| c as usize);
     let multi_line = v.get("multi_line").and_then(|b| b.as_bool()).unwrap_or(false);
     let heap_limit = v.get("heap_limit").and_then(|b| b.as_u64()).map(|x| x as usize);
+    // "nm_only": the matcher has no line terminator of its own but declares the terminator byte (and only it) non-matching
+    let nm_only = v.get("nm_only").and_then(|b| b.as_bool()).unwrap_or(false);
     let matcher = MMatcher {
-        term: if path == "slow" { None } else { Some(lt) },
-        candidate: path == "cand",
+        term: if path == "slow" || nm_only { None } else { Some(lt) },
+        candidate: path == "cand" && !nm_only,
+        non_matching: if nm_only {
+            let mut set = grep_matcher::ByteSet::empty();
+            set.add(lt.as_byte());
+            Some(set)
+        } else {
+            None
+        },
     };
     let mut b = SearcherBuilder::new();
     b.line_terminator(lt)
@@ -229,7 +244,7 @@ fn run_one(v: &Value, cache: &mut std::collections::HashMap<String, Searcher>) -
     }
     // Searchers are meant to be reused: keep one per distinct configuration so that state leaking
     // from one search into the next (roll buffer, offsets, binary detection) is observable.
-    let key = format!("{}|{}|{}|{}|{:?}|{:?}|{}", cfg, strat == "mmap", bin, multi_line, heap_limit, cap0, path == "slow");
+    let key = format!("{}|{}|{}|{}|{:?}|{:?}|{}|{}", cfg, strat == "mmap", bin, multi_line, heap_limit, cap0, path == "slow", nm_only);
     if cache.len() > 256 {
         cache.clear();
     }
